@@ -161,7 +161,10 @@ Record tinv (t : Z) : Prop := {
   t_woken : c_wst (C t) = WWoken -> ph s t = PhSigd /\ ev s t = 0 /\ slp s t <> Sleeping;
   t_before : c_cst (C t) = CBefore -> c_wst (C t) = WNone -> item0 t;
   t_in : c_cst (C t) = CIn -> ist s t = IRun /\ runs s t = 1 /\ remote s t = false;
-  t_after : c_cst (C t) = CAfter -> ist s t = IFin /\ runs s t = 1 /\ remote s t = false
+  t_after : c_cst (C t) = CAfter -> ist s t = IFin /\ runs s t = 1 /\ remote s t = false;
+  (* a waiter that took the drain lock itself (push_waiter) was not handed the lock by anybody *)
+  t_takeover : c_hold (C t) = true -> c_wst (C t) <> WNone ->
+               match ph s t with PhSig _ | PhSigd => remote s t = true | _ => True end
 }.
 
 Definition InvP : Prop := ginv /\ forall t, tinv t.
